@@ -63,17 +63,17 @@ def run(ctx):
         else:
             # simulate at depth 2 with Sample = FALSE: TLC emits every successor of the drawn
             # initial state, i.e. the whole query alphabet on `num` seeded datasets
-            r = gen(cfg, mode="simulate", num=6 if b in ("m7p7", "p0p15") else 5, depth=2, timeout=600)
+            r = gen(cfg, mode="simulate", num=8, depth=2, timeout=600)
         drive(cfg, b, r)
     r = gen("C14_q1_wide", mode="simulate", num=60 if thorough else 8, depth=2, timeout=900)
     drive("C14_q1_wide", "wide", r, wide=True)
     # every write on a dataset (the driver re-reads the whole state after it)
-    for b in (["m1p0", "p0p0", "m7p7"] if thorough else [["m1p0", "p0p0"][ctx.seed % 2]]):
+    for b in (["m1p0", "p0p0"] if thorough else [["m1p0", "p0p0"][ctx.seed % 2]]):
         cfg = "C14_w_" + b
         if thorough:
             r = gen(cfg, mode="bfs", timeout=1500)
         else:
-            r = gen(cfg, mode="simulate", num=3, depth=2, timeout=600)
+            r = gen(cfg, mode="simulate", num=2, depth=2, timeout=600)
         drive(cfg, b, r)
     # histories
     sims = [("m7p7", 60, 700), ("p0p15", 50, 500), ("p3p12", 50, 400), ("m12m3", 50, 400),
@@ -88,7 +88,7 @@ def run(ctx):
         drive(cfg, b, r, wide=(b == "wide"), onewrite=1)
     ctx.exhaustive = exhaustive
     ctx.notes.append("thorough: exhaustive over (dataset, load path, query) for the six small bounds and over "
-                     "(dataset, write) for (-1,0), (0,0) and a reduced dataset set of (-7,7); histories and the "
+                     "(dataset, write) for (-1,0) and (0,0); histories and the "
                      "wide (depth <= 63) profile are sampled")
 
 
